@@ -296,6 +296,9 @@ ROUND5 = {'C01', 'C02', 'C03', 'C04', 'C05', 'C07', 'C08', 'C09', 'C10', 'C13', 
 SRC = {}
 for _sid in SEEDS2:
     _pid, _k = _sid.split("-")
+    if int(_k) >= 13:
+        SRC[_sid] = f"/tmp/seed9/{_pid}/_out/{int(_k) - 12}"
+        continue
     if int(_k) >= 11:
         SRC[_sid] = f"/tmp/seed9/{_pid}/_out/{int(_k) - 10}" if _pid in ROUND9 else f"/tmp/seed8/{_pid}/_out/{int(_k) - 10}"
         continue
